@@ -56,10 +56,11 @@ def node_token(lw, n):
     return ''.join(parts)
 
 
-def check_text(tab, notation, opts, tag, out, desc):
+def check_text(tab, notation, opts, tag, out, desc, w=None):
     from pytableaux.lang import LexWriter
     from pytableaux.proof import TabWriter
-    w = TabWriter('text', notation, **opts)
+    if w is None:
+        w = TabWriter('text', notation, **opts)
     text = w(tab)
     if text != w(tab) or text != TabWriter('text', notation, **opts)(tab):
         out.append((f'C19|nondeterministic|text', f'{desc}: two text renderings differ'))
@@ -87,10 +88,11 @@ def check_text(tab, notation, opts, tag, out, desc):
         out.append((f'C19|text-closure-marks', f'{desc}: {text.count("(x)")} closure marks for {nclosed} closed branches'))
 
 
-def check_markup(fmt, tab, notation, opts, out, desc):
+def check_markup(fmt, tab, notation, opts, out, desc, w=None):
     from pytableaux.lang import LexWriter
     from pytableaux.proof import TabWriter
-    w = TabWriter(fmt, notation, **opts)
+    if w is None:
+        w = TabWriter(fmt, notation, **opts)
     text = w(tab)
     if text != w(tab):
         out.append((f'C19|nondeterministic|{fmt}', f'{desc}: two {fmt} renderings differ'))
@@ -142,16 +144,28 @@ def check_case(case):
     out = []
     desc = prover.case_str(case) + f' max_steps={case["max_steps"]}'
     fam = R.base_of(logic) + '*'
+    # all writers are built first and used afterwards (as a caller that keeps its writers would): a writer must
+    # not depend on which other writers exist
+    writers = {}
     for fmt in FORMATS:
         for notation in NOTATIONS:
             opts = dict(case['opts'].get(fmt, {}))
             if notation == 'standard':
                 opts.update(case['opts'].get('standard', {}))
             try:
+                writers[fmt, notation] = (TabWriter(fmt, notation, **opts), opts)
+            except Exception as e:
+                out.append((f'C19|writer-construct-raises|{fmt}|{type(e).__name__}', f'{desc}: TabWriter({fmt!r}, {notation!r}, **{opts}) raised {e!r}'))
+    for fmt in FORMATS:
+        for notation in NOTATIONS:
+            if (fmt, notation) not in writers:
+                continue
+            w, opts = writers[fmt, notation]
+            try:
                 if fmt == 'text':
-                    check_text(tab, notation, opts, fam, out, desc)
+                    check_text(tab, notation, opts, fam, out, desc, w)
                 else:
-                    check_markup(fmt, tab, notation, opts, out, desc)
+                    check_markup(fmt, tab, notation, opts, out, desc, w)
             except Exception as e:
                 import traceback
                 tb = traceback.extract_tb(e.__traceback__)
